@@ -587,11 +587,7 @@ local function wrap(orig)
     return orig(...)
   end
 end
-pairs = wrap(pairs); ipairs = wrap(ipairs); next = wrap(next)
-getmetatable = wrap(getmetatable); type = wrap(type); select = wrap(select)
-rawget = wrap(rawget); rawset = wrap(rawset); tostring = wrap(tostring)
-unpack = wrap(unpack); setmetatable = wrap(setmetatable)
-require = wrap(require)
+@@PLANT@@
 @@DUMMIES@@
 for i = 1, @@K@@ do @@PUSH@@ end
 return "planted"
@@ -600,6 +596,33 @@ return "planted"
 TAMPER_HISTORY = ["{{#invoke:attack|main|check}}", "{{#invoke:echo|f|x}}",
                   "{{wrap|check}}", "@newpage", "{{#invoke:attack|main|check}}",
                   "{{#invoke:echo|f|y}}"]
+
+
+PLANT_OWN = """
+pairs = wrap(pairs); ipairs = wrap(ipairs); next = wrap(next)
+getmetatable = wrap(getmetatable); type = wrap(type); select = wrap(select)
+rawget = wrap(rawget); rawset = wrap(rawset); tostring = wrap(tostring)
+unpack = wrap(unpack); setmetatable = wrap(setmetatable)
+require = wrap(require)
+"""
+# the same wrappers written into the table _lua_reset_env() hands out (the
+# environment every module environment is cloned from; 'next' and 'mw' in it
+# survive the reset before the next top-level invocation)
+PLANT_SHARED = """
+local saved = { pairs = pairs, ipairs = ipairs, next = next,
+  getmetatable = getmetatable, type = type, select = select, rawget = rawget,
+  rawset = rawset, tostring = tostring, unpack = unpack,
+  setmetatable = setmetatable, require = require }
+local okr, shared = raw_pcall(_lua_reset_env)
+if okr and raw_type(shared) == "table" then
+  for name, fn in raw_next, saved do shared[name] = wrap(fn) end
+  local realmw = mw
+  if raw_type(realmw) == "table" then
+    shared.mw = setmetatable({}, { __index = function(t, k)
+      try(realmw); return realmw[k] end })
+  end
+end
+"""
 
 
 def tamper_attacks():
@@ -612,14 +635,16 @@ def tamper_attacks():
             for pn, push in pushes.items():
                 if k == 0 and pn != "G":
                     continue
-                body = TAMPER_BODY.replace("@@K@@", str(k)).replace(
-                    "@@PUSH@@", push).replace(
-                    "@@DUMMIES@@",
-                    "_lua_set_timeout = function() end; "
-                    "_lua_clear_timeout_hook = function() end"
-                    if dummies else "")
-                out.append((f"tamper:push={pn}x{k},dummies={int(dummies)}",
-                            body))
+                for plant_name, plant in (("own", PLANT_OWN),
+                                          ("shared", PLANT_SHARED)):
+                    body = TAMPER_BODY.replace("@@K@@", str(k)).replace(
+                        "@@PUSH@@", push).replace("@@PLANT@@", plant).replace(
+                        "@@DUMMIES@@",
+                        "_lua_set_timeout = function() end; "
+                        "_lua_clear_timeout_hook = function() end"
+                        if dummies else "")
+                    out.append((f"tamper:plant={plant_name},push={pn}x{k},"
+                                f"dummies={int(dummies)}", body))
     return out
 
 
@@ -964,7 +989,8 @@ def run(run):
         "whose payload watches the tables passing through the global helpers "
         "while the sandbox is set up and uses any Python callable it finds; "
         "and two-step histories in which a first invocation wraps the global "
-        "helpers, optionally disables the timeout setters and pushes 0-3 "
+        "helpers (in its own environment, or in the shared environment that "
+        "_lua_reset_env() hands out, including the names kept across resets), optionally disables the timeout setters and pushes 0-3 "
         "extra entries on the host's environment stack, followed by five "
         "further outermost invocations on the same and on a new page: "
         "no new or changed file, pages table byte-identical, context "
